@@ -38,6 +38,7 @@ def keyStartOK : List Tok → Bool
 def fromStartOK : List Tok → Bool
   | .word w :: _ => w != "open" && w != "close" && w != "clear"
   | .sym .lparen :: .word w :: _ => w != "select"
+  | [.sym .lparen] => false
   | _ => true
 
 def PKey.ok : PKey → Bool
